@@ -18,6 +18,14 @@ from uberjob.progress._null_progress_observer import NullProgressObserver
 
 BASE = dt.datetime(2021, 3, 4, 5, 6, 7)
 
+# The in-memory stores report NAIVE datetimes (= local time, as the bundled file stores do) and `fresh_time` is passed naive
+# as well.  The process zone of these checks is deliberately NOT UTC (a fixed +05:30, POSIX form, no zone database needed):
+# code that converts some naive values and not others then shifts them against each other by 5 h 30 min.
+import os as _os
+import time as _time
+_os.environ["TZ"] = "VRF-05:30"
+_time.tzset()
+
 
 # one tick of the logical clock: a little more than a quarter of a second, so that consecutive modified times mostly
 # fall into the SAME wall-clock second and differ only in their microseconds (a comparison that drops them is wrong)
